@@ -61,4 +61,46 @@ def queries(ctx, extra):
                               (3, 3, 0, 600), (4, 2, 1, 1800), (4, 3, 1, 1800), (5, 2, 1, 3600), (4, 1, 1, 600)):
         qs.append(kq("divide", "h_iint_divide", ac, bc, True, solver="cadical", timeout=to, unwind=max(12, ac + bc + 6),
                      tiers=("thorough",) if tiers else ("quick", "thorough")))
+    # ---- API level, production radix
+    KN = {0: "imm", 1: "p2", 2: "n2", 3: "p3", 4: "n3", 5: "ps", 6: "ns", 7: "immP", 8: "immN"}
+    NEG = {1: 0, 2: 1, 3: 0, 4: 1, 5: 0, 6: 1, 7: 0, 8: 1}
+    API_DEFS = ["-DV_NO_STO_STUBS"]
+    MKSET = ["mk.0:12", "mk.1:12", "mk.2:12", "mk.3:12", "uintLength.0:66"]
+
+    def aq(name, entry, ka, kb=None, **kw):
+        defs = API_DEFS + ["-DKA=%d" % ka] + (["-DKB=%d" % kb] if kb is not None else [])
+        kw.setdefault("unwind", 6)
+        kw.setdefault("timeout", 300)
+        kw["unwindset"] = MKSET + kw.get("unwindset", [])
+        nm = "api_%s_%s%s" % (name, KN[ka], ("_" + KN[kb]) if kb is not None else "")
+        return Query(name=nm, harness="c11_api.c", entry=entry, defs=defs, group="API radix 2^32",
+                     bound="a: %s%s; all values of that representation (imm=immediate, pN/nN = stored +/- N digits, "
+                           "ps/ns = small value in stored form)" % (KN[ka], ("; b: " + KN[kb]) if kb is not None else ""), **kw)
+
+    qs.append(Query(name="api_new", harness="c11_api.c", entry="h_new", defs=API_DEFS, unwind=6, unwindset=MKSET, group="API radix 2^32",
+                    bound="all 2^64 long values"))
+    qs.append(Query(name="api_immedIfCan", harness="c11_api.c", entry="h_immedIfCan", defs=API_DEFS, unwind=6, unwindset=MKSET,
+                    group="API radix 2^32", bound="all stored values of 0..3 digits, both signs"))
+    for ka in range(5):
+        qs.append(aq("lenbit", "h_lenbit", ka))
+        qs.append(aq("shift", "h_shift", ka, timeout=900, tiers=("quick", "thorough") if ka in (0, 1) else ("thorough",)))
+        qs.append(aq("placevS", "h_placevS", ka))
+        if ka in (0, 1, 3):
+            qs.append(aq("shiftrem", "h_shiftrem", ka))
+        for kb in range(5):
+            qs.append(aq("cmp", "h_cmp", ka, kb))
+    # bintPlus/bintMinus/bintTimes: sign and representation concrete, so that the exact recursion depth of the
+    # mutually recursive sign dispatch is known per query (P = nested bintPlus activations, M = bintMinus)
+    for ka in (1, 2, 3, 4, 5, 6, 7, 8):
+        for kb in (1, 2, 3, 4, 5, 6, 7, 8):
+            if (ka in (7, 8)) != (kb in (7, 8)):
+                continue      # immediate with stored: the immediate is first converted by xintStore (h_new) = the ps/ns kinds
+            na, nb = NEG[ka], NEG[kb]
+            pP, pM = (1, 0) if (na and nb) else (0, 1) if (na or nb) else (0, 0)
+            mP, mM = (0, 1) if (na and nb) else (1, 0) if (na or nb) else (0, 0)
+            heavy = dict(timeout=1800, mem_gb=14, tiers=("thorough",))
+            if (ka, kb) in ((7, 7), (8, 7)):
+                heavy["tiers"] = ("quick", "thorough")
+            qs.append(aq("plus", "h_plus", ka, kb, unwindset=["bintPlus:%d" % pP, "bintMinus:%d" % pM], **heavy))
+            qs.append(aq("minus", "h_minus", ka, kb, unwindset=["bintPlus:%d" % mP, "bintMinus:%d" % mM], **heavy))
     return qs
